@@ -53,7 +53,7 @@ UNKNOWN_B = wire.make_rec(100, wire.LEN, b"zz").raw
 OBSERVERS = [
     "read:m", "read:m.c", "read:m.c.a", "read:m.v", "read:o", "read:oi", "read:os", "read:mp",
     "read:r", "read:t", "read:ri", "read:w", "read:e",
-    "bytes", "len", "eq", "bool", "repr", "to_dict", "to_dict_snake", "to_dict_defaults",
+    "bytes", "len", "eq", "eq-other-oneof", "bool", "repr", "to_dict", "to_dict_snake", "to_dict_defaults",
     "to_json", "to_pydict", "to_pydict_defaults", "is_set", "which_one_of",
 ]
 COPIERS = ["copy", "deepcopy", "pickle"]
@@ -121,6 +121,11 @@ class ObsSpace(Space):
         elif op == "eq":
             obj == self.ns.P()
             obj == obj
+        elif op == "eq-other-oneof":
+            # comparisons (both operand orders) with messages whose oneof selection differs
+            for other in (self.ns.P(os="x"), self.ns.P(oi=5), self.ns.P(oi=0), self.ns.P(o=1)):
+                obj == other
+                other == obj
         elif op == "bool":
             bool(obj)
         elif op == "repr":
